@@ -22,15 +22,15 @@ type lrStep struct {
 }
 
 type lrExplorer struct {
-	g      *ref.Grammar
-	vw     *ygo.View
-	m      *lrm.Machine
-	e      *ref.Earley
-	depth  int
-	bottom bool // include the unknown token
-	terms  []int
+	g                   *ref.Grammar
+	vw                  *ygo.View
+	m                   *lrm.Machine
+	e                   *ref.Earley
+	depth               int
+	bottom              bool // include the unknown token
+	terms               []int
 	States, Transitions int64
-	visit  func(s *lrStep)
+	visit               func(s *lrStep)
 }
 
 func (x *lrExplorer) run() {
